@@ -658,8 +658,12 @@ class TypeTransformer:
         if self.no_explicit_cast:
             return t(data)  # noqa
         if not self.no_data_loss:
-            if data in t.__members__:  # noqa
-                return t.__members__[data]  # noqa
+            try:
+                if data in t.__members__:  # noqa
+                    return t.__members__[data]  # noqa
+            except TypeError:
+                # unhashable data (list / set / bytearray) is not a member name
+                pass
         member_type = getattr(t, "_member_type_", None)
         if member_type and member_type != object:
             if type(data) != member_type:
